@@ -1806,3 +1806,386 @@ Proof.
   - intros kv Hkv. rewrite forallb_forall in H3. specialize (H3 kv Hkv). lia.
   - apply nodup_b_sound, H4.
 Qed.
+
+(* ================================================================== *)
+(* Part 5: termination of SliceFinder.trial                              *)
+Lemma remove_seq_inv : forall xs c c', Inv c -> remove_seq xs c = Some c' ->
+  Inv c' /\ NoDup xs /\ (forall y, In y xs -> zd_get y (c_sd c) <> None) /\
+  (forall j, zd_get j (c_sd c') = if memb j xs then None else zd_get j (c_sd c)) /\
+  (length (c_sd c') + length xs = length (c_sd c))%nat.
+Proof.
+  induction xs as [|x xs IH]; intros c c' Hinv Hseq; cbn [remove_seq] in Hseq.
+  - injection Hseq as <-. split; [exact Hinv|]. split; [constructor|]. split; [intros y []|].
+    split; [intros j; reflexivity|cbn; lia].
+  - destruct (remove x c) as [c1|] eqn:Er; [|discriminate].
+    destruct (remove_spec x c c1 Hinv Er) as (Ed & _ & S1 & _ & _ & I1). cbn zeta in Ed.
+    destruct (IH c1 c' I1 Hseq) as (I' & ND & Hkeys & R & Len).
+    assert (HND : NoDup (zd_keys (c_sd c))) by apply Hinv.
+    assert (Hx : ~ In x xs).
+    { intros Hin. apply (Hkeys x Hin). rewrite S1. apply zd_get_del_same, HND. }
+    split; [exact I'|]. split; [constructor; assumption|]. split; [|split].
+    + intros y [<-|Hy]; [congruence|]. specialize (Hkeys y Hy). rewrite S1 in Hkeys.
+      destruct (Nat.eq_dec y x) as [->|Hne]; [contradiction|]. rewrite zd_get_del_other in Hkeys by exact Hne. exact Hkeys.
+    + intros j. rewrite R, S1, memb_cons. destruct (Nat.eqb_spec j x) as [->|Hne]; cbn [orb].
+      * destruct (memb x xs); [reflexivity|]. apply zd_get_del_same, HND.
+      * rewrite zd_get_del_other by exact Hne. reflexivity.
+    + pose proof (remove_sd_length x c c1 Er). cbn [length]. lia.
+Qed.
+
+Lemma zd_mem_get j d : zd_mem j d = true <-> zd_get j d <> None.
+Proof. unfold zd_mem. destruct (zd_get j d); split; congruence. Qed.
+
+(* a slicing with one more index has a strictly smaller size_dict *)
+Lemma entry_measure fd key cost x nc : Inv (f_cost0 fd) ->
+  entry_ok fd (key, cost) -> entry_ok fd (key_ins x key, nc) -> zd_mem x (c_sd cost) = true ->
+  (length (c_sd nc) < length (c_sd cost))%nat.
+Proof.
+  intros Hinv (xs & Hs & Hk & _) (xs' & Hs' & Hk' & _) Hx. cbn [fst snd] in *.
+  destruct (remove_seq_inv xs _ cost Hinv Hs) as (_ & ND & _ & R & Len).
+  destruct (remove_seq_inv xs' _ nc Hinv Hs') as (_ & ND' & _ & _ & Len').
+  assert (Hnx : ~ In x xs).
+  { apply memb_false. apply zd_mem_get in Hx. specialize (R x). destruct (memb x xs); [congruence|reflexivity]. }
+  assert (HP : Permutation xs' (x :: xs)).
+  { apply NoDup_Permutation; [exact ND'|constructor; assumption|].
+    intros j. rewrite <- Hk', key_ins_in, Hk. cbn. intuition. }
+  apply Permutation_length in HP. cbn [length] in HP. lia.
+Qed.
+
+Lemma trial_loop_unfold fd x rest ch key cost :
+  trial_loop fd (x :: rest) ch key cost =
+  match c_sd cost with
+  | [] => Raise E_MAX_EMPTY
+  | _ => match trial_step fd x ch key cost with
+         | SRet r => Ret r
+         | SRaise k => Raise k
+         | SCont ch' k' c' => trial_loop fd rest ch' k' c'
+         end
+  end.
+Proof.
+  cbn [trial_loop]. unfold trial_step. destruct (c_sd cost) as [|kv sd]; [reflexivity|].
+  destruct (negb (zd_mem x (kv :: sd))); [reflexivity|].
+  destruct (memb x (f_forbidden fd)); [reflexivity|]. cbn zeta.
+  destruct (cache_get (key_ins x key) ch) as [nc|].
+  - destruct (opt_test (f_tover fd) (over_gt nc)); [reflexivity|].
+    destruct (opt_test (f_tslices fd) (slices_ge nc)); [reflexivity|].
+    destruct (opt_test (f_tsize fd) (size_le nc)); reflexivity.
+  - destruct (remove x cost) as [nc|]; [|reflexivity].
+    destruct (opt_test (f_tover fd) (over_gt nc)); [reflexivity|].
+    destruct (opt_test (f_tslices fd) (slices_ge nc)); [reflexivity|].
+    destruct (opt_test (f_tsize fd) (size_le nc)); reflexivity.
+Qed.
+
+(* the list-oracle loop is the choice-function loop for the positional choice function *)
+Lemma trial_loop_is_g fd choose : forall l step ch key cost,
+  (forall i k c, (i < length l)%nat -> choose (step + i)%nat k c = nth i l 0%nat) ->
+  trial_loop fd l ch key cost = trial_loop_g fd choose (length l) step ch key cost.
+Proof.
+  induction l as [|x l IH]; intros step ch key cost Hc.
+  - cbn. destruct (c_sd cost); reflexivity.
+  - rewrite trial_loop_unfold. cbn [length trial_loop_g].
+    destruct (c_sd cost) as [|kv sd]; [reflexivity|].
+    assert (E0 : choose step key cost = x).
+    { pose proof (Hc 0%nat key cost) as H0. rewrite Nat.add_0_r in H0. apply H0. cbn; lia. }
+    rewrite E0.
+    destruct (trial_step fd x ch key cost) as [r|k|ch' k' c']; try reflexivity.
+    apply IH. intros i k c Hi. replace (S step + i)%nat with (step + S i)%nat by lia.
+    rewrite Hc by (cbn; lia). reflexivity.
+Qed.
+
+Lemma trial_is_g fd l ch :
+  trial fd l ch = trial_g fd (fun i _ _ => nth i l 0%nat) (length l) ch.
+Proof.
+  unfold trial, trial_g. destruct (cache_get [] ch) as [cost|]; [|reflexivity].
+  destruct (already_satisfied fd cost); [reflexivity|].
+  apply trial_loop_is_g. intros i k c _. reflexivity.
+Qed.
+
+Lemma trial_step_cont fd x ch key cost ch' k' c' : Inv (f_cost0 fd) ->
+  cache_ok fd ch -> entry_ok fd (key, cost) ->
+  trial_step fd x ch key cost = SCont ch' k' c' ->
+  cache_ok fd ch' /\ entry_ok fd (k', c') /\ (length (c_sd c') < length (c_sd cost))%nat.
+Proof.
+  intros Hinv Hch Hent. unfold trial_step.
+  destruct (zd_mem x (c_sd cost)) eqn:Em; cbn [negb]; [|discriminate].
+  destruct (memb x (f_forbidden fd)) eqn:Eforb; [discriminate|]. apply memb_false in Eforb. cbn zeta.
+  assert (Hstep : forall nc, (cache_get (key_ins x key) ch = Some nc \/ remove x cost = Some nc) ->
+                             entry_ok fd (key_ins x key, nc)).
+  { intros nc [Hc|Hr].
+    - apply cache_get_in in Hc. unfold cache_ok in Hch. rewrite Forall_forall in Hch. apply Hch, Hc.
+    - destruct Hent as (xs & Hs & Hk & Hf). cbn [fst snd] in *. exists (xs ++ [x]). cbn [fst snd]. split; [|split].
+      + apply (remove_seq_snoc xs x _ cost nc Hs Hr).
+      + intros j. rewrite key_ins_in, in_app_iff, Hk. cbn. intuition.
+      + intros j Hj. apply in_app_iff in Hj. destruct Hj as [Hj|[<-|[]]]; [apply Hf, Hj|exact Eforb]. }
+  destruct (cache_get (key_ins x key) ch) as [nc|] eqn:Ec.
+  - destruct (opt_test (f_tover fd) (over_gt nc)); [discriminate|].
+    destruct (opt_test (f_tslices fd) (slices_ge nc)); [discriminate|].
+    destruct (opt_test (f_tsize fd) (size_le nc)); [discriminate|].
+    intros [= <- <- <-]. assert (Hnc := Hstep nc (or_introl eq_refl)).
+    split; [exact Hch|]. split; [exact Hnc|]. apply (entry_measure fd key cost x nc Hinv Hent Hnc Em).
+  - destruct (remove x cost) as [nc|] eqn:Er; [|discriminate].
+    destruct (opt_test (f_tover fd) (over_gt nc)); [discriminate|].
+    destruct (opt_test (f_tslices fd) (slices_ge nc)); [discriminate|].
+    destruct (opt_test (f_tsize fd) (size_le nc)); [discriminate|].
+    intros [= <- <- <-]. assert (Hnc := Hstep nc (or_intror eq_refl)).
+    split; [|split; [exact Hnc|apply (entry_measure fd key cost x nc Hinv Hent Hnc Em)]].
+    unfold cache_ok. apply Forall_app. split; [exact Hch|]. constructor; [exact Hnc|constructor].
+Qed.
+
+Lemma trial_step_raise_oracle fd x ch key cost :
+  trial_step fd x ch key cost = SRaise E_ORACLE -> zd_mem x (c_sd cost) = false.
+Proof.
+  unfold trial_step. destruct (zd_mem x (c_sd cost)); cbn [negb]; [|reflexivity].
+  destruct (memb x (f_forbidden fd)); [discriminate|]. cbn zeta.
+  destruct (cache_get (key_ins x key) ch) as [nc|]; [|destruct (remove x cost) as [nc|]; [|discriminate]];
+    destruct (opt_test (f_tover fd) (over_gt nc)); try discriminate;
+    destruct (opt_test (f_tslices fd) (slices_ge nc)); try discriminate;
+    destruct (opt_test (f_tsize fd) (size_le nc)); discriminate.
+Qed.
+
+(* what `max(cost.size_dict, key=...)` guarantees: the pick is a key of the dict *)
+Definition picks_candidates (choose : nat -> list ix -> costs -> ix) : Prop :=
+  forall i k c, c_sd c <> [] -> zd_mem (choose i k c) (c_sd c) = true.
+
+Theorem trial_loop_g_terminates fd choose : Inv (f_cost0 fd) ->
+  forall fuel step ch key cost, cache_ok fd ch -> entry_ok fd (key, cost) ->
+  (length (c_sd cost) <= fuel)%nat ->
+  trial_loop_g fd choose fuel step ch key cost <> Stuck /\
+  (picks_candidates choose -> trial_loop_g fd choose fuel step ch key cost <> Raise E_ORACLE).
+Proof.
+  intros Hinv. induction fuel as [|fuel IH]; intros step ch key cost Hch Hent Hlen; cbn [trial_loop_g].
+  - destruct (c_sd cost); [split; [|intros _]; discriminate|cbn in Hlen; lia].
+  - destruct (c_sd cost) as [|kv sd] eqn:Esd; [split; [|intros _]; discriminate|]. rewrite <- Esd in *.
+    destruct (trial_step fd (choose step key cost) ch key cost) as [r|k|ch' k' c'] eqn:Et.
+    + split; [|intros _]; discriminate.
+    + split; [discriminate|]. intros Hgood Hk. injection Hk as ->.
+      apply trial_step_raise_oracle in Et. rewrite Hgood in Et; [discriminate|]. rewrite Esd. discriminate.
+    + destruct (trial_step_cont fd _ ch key cost ch' k' c' Hinv Hch Hent Et) as (A & B & C).
+      apply IH; [exact A|exact B|lia].
+Qed.
+
+Lemma entry_sd_length fd k c : Inv (f_cost0 fd) -> entry_ok fd (k, c) ->
+  (length (c_sd c) <= length (c_sd (f_cost0 fd)))%nat.
+Proof.
+  intros Hinv (xs & Hs & _). cbn [snd] in Hs.
+  destruct (remove_seq_inv xs _ c Hinv Hs) as (_ & _ & _ & _ & Len). lia.
+Qed.
+
+(* SliceFinder.trial returns or raises within |size_dict| iterations of the loop body
+   (the next evaluation of max() would find an empty dict and raise ValueError) *)
+Theorem trial_g_terminates fd choose fuel ch : Inv (f_cost0 fd) -> cache_ok fd ch ->
+  (length (c_sd (f_cost0 fd)) <= fuel)%nat ->
+  trial_g fd choose fuel ch <> Stuck /\
+  (picks_candidates choose -> trial_g fd choose fuel ch <> Raise E_ORACLE).
+Proof.
+  intros Hinv Hch Hfuel. unfold trial_g.
+  destruct (cache_get [] ch) as [cost|] eqn:Ec; [|split; [|intros _]; discriminate].
+  destruct (already_satisfied fd cost); [split; [|intros _]; discriminate|].
+  assert (Hent : entry_ok fd ([], cost)).
+  { apply cache_get_in in Ec. unfold cache_ok in Hch. rewrite Forall_forall in Hch. apply Hch, Ec. }
+  apply trial_loop_g_terminates; [exact Hinv|exact Hch|exact Hent|].
+  pose proof (entry_sd_length fd [] cost Hinv Hent). lia.
+Qed.
+
+(* list oracles: one that is at least as long as the size dict never runs out *)
+Corollary trial_never_stuck fd oracle ch : Inv (f_cost0 fd) -> cache_ok fd ch ->
+  (length (c_sd (f_cost0 fd)) <= length oracle)%nat -> trial fd oracle ch <> Stuck.
+Proof.
+  intros Hinv Hch Hlen. rewrite trial_is_g. apply trial_g_terminates; assumption.
+Qed.
+
+Lemma finder_of_tree_inv n sl0 t ao ts tov tsl :
+  tree_ok n sl0 t -> sd_pos (szd n) -> NoDup (zd_keys (szd n)) ->
+  Inv (f_cost0 (finder_of_tree n sl0 t ao ts tov tsl)) /\
+  c_sd (f_cost0 (finder_of_tree n sl0 t ao ts tov tsl)) = szd n.
+Proof.
+  intros Hok Hpos HND. cbn [f_cost0 finder_of_tree].
+  destruct (cc_init_inv (tree_rows n sl0 t) (szd n) (tree_rows_ok n sl0 t Hok) Hpos HND) as (I0 & _ & S0 & _).
+  split; assumption.
+Qed.
+
+Theorem trial_terminates_tree n sl0 t ao ts tov tsl choose ch :
+  tree_ok n sl0 t -> sd_pos (szd n) -> NoDup (zd_keys (szd n)) ->
+  let fd := finder_of_tree n sl0 t ao ts tov tsl in
+  cache_ok fd ch ->
+  trial_g fd choose (length (szd n)) ch <> Stuck /\
+  (picks_candidates choose -> trial_g fd choose (length (szd n)) ch <> Raise E_ORACLE).
+Proof.
+  intros Hok Hpos HND fd Hch.
+  destruct (finder_of_tree_inv n sl0 t ao ts tov tsl Hok Hpos HND) as (I0 & S0).
+  apply trial_g_terminates; [exact I0|exact Hch|]. unfold fd. rewrite S0. lia.
+Qed.
+
+Definition first_key_choice : nat -> list ix -> costs -> ix :=
+  fun _ _ c => match c_sd c with (k, _) :: _ => k | [] => 0%nat end.
+Lemma first_key_picks_candidates : picks_candidates first_key_choice.
+Proof.
+  intros i k c Hne. unfold first_key_choice. destruct (c_sd c) as [|[j v] sd]; [contradiction|].
+  unfold zd_mem. cbn. rewrite Nat.eqb_refl. reflexivity.
+Qed.
+
+(* ================================================================== *)
+(* Part 6: soundness of the executable cross-check scratch_b             *)
+Lemma list_eqb_sound {A} (e : A -> A -> bool) : (forall x y, e x y = true -> x = y) ->
+  forall l1 l2, list_eqb e l1 l2 = true -> l1 = l2.
+Proof.
+  intros He. induction l1 as [|x l1 IH]; intros [|y l2]; cbn; try congruence.
+  intros H. apply andb_true_iff in H. destruct H as [H1 H2]. f_equal; [apply He, H1|apply IH, H2].
+Qed.
+
+Lemma eqb_row_sound (r1 r2 : row) : eqb r1 r2 = true -> r1 = r2.
+Proof.
+  destruct r1 as [i1 [l1 [s1 f1]]], r2 as [i2 [l2 [s2 f2]]].
+  cbv [eqb Eqb_prod Eqb_list Eqb_nat Eqb_Z fst snd]. intros H.
+  apply andb_true_iff in H. destruct H as [H1 H]. apply andb_true_iff in H. destruct H as [H2 H].
+  apply andb_true_iff in H. destruct H as [H3 H4].
+  apply (list_eqb_sound Nat.eqb (fun x y => proj1 (Nat.eqb_eq x y))) in H1.
+  apply (list_eqb_sound Nat.eqb (fun x y => proj1 (Nat.eqb_eq x y))) in H2.
+  apply Z.eqb_eq in H3. apply Z.eqb_eq in H4. subst. reflexivity.
+Qed.
+
+Lemma eqb_rows_sound (l1 l2 : list row) : eqb l1 l2 = true -> l1 = l2.
+Proof. apply (list_eqb_sound _ eqb_row_sound). Qed.
+
+Lemma eqb_optZ_sound (a b : option Z) : eqb a b = true -> a = b.
+Proof.
+  destruct a as [a|], b as [b|]; cbv [eqb Eqb_option Eqb_Z]; try congruence.
+  intros H. apply Z.eqb_eq in H. congruence.
+Qed.
+
+(* what a successful scratch_b guarantees for a cache entry (key xs, cost c): the table is
+   the tree's table for sl0 ++ xs, the three predictions are the tree's figures, and the
+   reductions are their definitions.  (It also compares size_dict and _where as sorted
+   lists; nothing is claimed from those two comparisons.) *)
+Theorem scratch_b_sound n sl0 t xs c : (forall j, 0 < zget j (szd n)) ->
+  scratch_b n sl0 t (xs, c) = true ->
+  let sl := sl0 ++ slice_all xs in
+  c_tab c = tree_rows n sl t /\
+  c_nsl c * multiplicity n sl0 = multiplicity n sl /\
+  cc_total_flops c * multiplicity n sl0 = total_flops n sl t /\
+  match cc_size c with Some s => s | None => 0 end = max_size n sl t /\
+  c_orig c = sum_flops n sl0 t /\
+  forall j, In j (zd_keys (c_sd c)) ->
+    zd_get0 j (c_fred c) = fred_def (c_sd c) (tree_rows n sl t) j /\
+    zd_get0 j (c_wred c) = wred_def (c_sd c) (tree_rows n sl t) j.
+Proof.
+  intros Hpos H. cbn zeta. unfold scratch_b in H. cbn [fst snd] in H.
+  repeat (apply andb_true_iff in H; let H' := fresh "B" in destruct H as [H H']).
+  apply eqb_rows_sound in H. apply Z.eqb_eq in B4, B3, B2. apply eqb_optZ_sound in B1.
+  assert (Em : c_nsl c * multiplicity n sl0 = multiplicity n (sl0 ++ slice_all xs))
+    by (rewrite multiplicity_slice_all, B3; ring).
+  split; [exact H|]. split; [exact Em|]. split; [|split; [|split; [exact B2|]]].
+  - unfold cc_total_flops, total_flops. rewrite <- Em, B4. ring.
+  - rewrite B1, tree_rows_sizes. unfold max_size. symmetry. apply zmax_list_opt.
+    intros x Hx. apply in_map_iff in Hx. destruct Hx as (bt & <- & _).
+    unfold node_size. pose proof (size_of_pos (szd n) (lkeys (node_legs n (sl0 ++ slice_all xs) (fst bt) (snd bt))) Hpos). lia.
+  - intros j Hj. rewrite forallb_forall in B. specialize (B j Hj).
+    apply andb_true_iff in B. destruct B as [B _]. apply andb_true_iff in B. destruct B as [E1 E2].
+    apply Z.eqb_eq in E1, E2. split; assumption.
+Qed.
+
+(* ================================================================== *)
+(* Part 7: the float comparison of the overhead agrees with the exact one *)
+From Coq Require Import QArith.
+Section FloatCompare.
+(* float(a / b) for Python ints a, b (true division), as a rational *)
+Variable fdiv : Z -> Z -> Q.
+Definition P53 : positive := Z.to_pos FP.
+Definition quot (a b : Z) : Q := (a # Z.to_pos b)%Q.
+(* rounding to nearest is monotone: an exact quotient below a float stays below it *)
+Hypothesis fdiv_below : forall a b (tf : Q), (1 <= b)%Z -> (quot a b <= tf)%Q -> (fdiv a b <= tf)%Q.
+(* int / int is correctly rounded: relative error at most 2^-53 in the normal range *)
+Hypothesis fdiv_err : forall a b, (1 <= a < FB)%Z -> (1 <= b < FB)%Z ->
+  (quot a b * (1 - (1 # P53)) <= fdiv a b)%Q.
+
+Lemma Zpos_P53 : Zpos P53 = FP.
+Proof. reflexivity. Qed.
+
+Theorem over_float_agrees c num den :
+  over_safe_b c (num, den) = true ->
+  let tf := quot num den in      (* the float target, exactly *)
+  ((tf < fdiv (cc_total_flops c) (c_orig c))%Q <-> over_gt c (num, den) = true).
+Proof.
+  unfold over_safe_b, over_gt. cbn [fst snd]. intros H. cbn zeta.
+  set (a := cc_total_flops c) in *. set (b := c_orig c) in *.
+  repeat (apply andb_true_iff in H; let H' := fresh "B" in destruct H as [H H']).
+  apply Z.leb_le in H, B2. apply Z.ltb_lt in B3, B1, B0.
+  assert (Eb : Zpos (Z.to_pos b) = b) by (apply Z2Pos.id; lia).
+  assert (Ed : Zpos (Z.to_pos den) = den) by (apply Z2Pos.id; lia).
+  split.
+  - intros Hlt. apply Z.ltb_lt. destruct (Z.lt_ge_cases (num * b) (a * den)) as [Hc|Hc]; [exact Hc|exfalso].
+    assert (Hle : (quot a b <= quot num den)%Q).
+    { unfold quot, Qle. cbn [Qnum Qden]. rewrite Eb, Ed. lia. }
+    pose proof (fdiv_below a b (quot num den) B2 Hle) as Hf.
+    apply (Qlt_irrefl (quot num den)). eapply Qlt_le_trans; [exact Hlt|exact Hf].
+  - intros Hgt. apply Z.ltb_lt in Hgt.
+    apply orb_true_iff in B. destruct B as [Bz|Bz]; [apply Z.leb_le in Bz; lia|]. apply Z.ltb_lt in Bz.
+    eapply Qlt_le_trans; [|apply fdiv_err; lia].
+    unfold quot, Qlt, Qmult, Qminus, Qplus, Qopp. cbn [Qnum Qden].
+    rewrite !Pos2Z.inj_mul, Eb, Ed, Zpos_P53. nia.
+Qed.
+End FloatCompare.
+
+(* ================================================================== *)
+(* Part 8: search(...) with per-call target overrides, on a persisting cache *)
+Local Open Scope Z_scope.
+Lemma cache_ok_overrides fd ots otov otsl ch :
+  cache_ok (with_overrides fd ots otov otsl) ch <-> cache_ok fd ch.
+Proof. unfold cache_ok, entry_ok. cbn [with_overrides f_cost0 f_forbidden]. tauto. Qed.
+
+(* the targets of the CALL: an argument that is given wins over the construction-time one *)
+Definition call_targets_hold (fd : finder) (ots : option Z) (otov : option (Z * Z)) (otsl : option Z)
+    (c : costs) : Prop :=
+  (forall ts, maybe_default (f_tsize fd) ots = Some ts -> size_le c ts = true) /\
+  (forall tv, maybe_default (f_tover fd) otov = Some tv -> over_gt c tv = false) /\
+  (forall tsl, maybe_default (f_tslices fd) otsl = Some tsl -> slices_ge c tsl = true).
+
+Theorem search_call_spec fd ots otov otsl oracles ch ch' k c : cache_ok fd ch ->
+  search_call fd ots otov otsl oracles ch = Ret (ch', (k, c)) ->
+  cache_ok fd ch' /\ entry_ok fd (k, c) /\ call_targets_hold fd ots otov otsl c /\
+  (exists xs, remove_seq xs (f_cost0 fd) = Some c /\ (forall j, In j k <-> In j xs) /\
+              forall j, In j xs -> ~ In j (f_forbidden fd)).
+Proof.
+  intros Hch. unfold search_call. set (fd' := with_overrides fd ots otov otsl).
+  destruct (search_loop fd' oracles ch) as [[ch1 rs]| |] eqn:Es; try discriminate.
+  destruct (best fd' ch1) as [e| |] eqn:Eb; try discriminate. intros [= -> ->].
+  assert (Hch' : cache_ok fd' ch) by (apply cache_ok_overrides, Hch).
+  destruct (search_loop_spec fd' oracles ch ch' rs Hch' Es) as (Hch1 & _).
+  destruct (best_spec fd' ch' (k, c) Eb) as (Hin & Ht & _).
+  assert (Hent : entry_ok fd' (k, c)) by (unfold cache_ok in Hch1; rewrite Forall_forall in Hch1; apply Hch1, Hin).
+  split; [apply (cache_ok_overrides fd ots otov otsl), Hch1|]. split; [exact Hent|]. split; [exact Ht|exact Hent].
+Qed.
+
+(* C07 for a call with overrides on a tree finder, after any earlier calls (any cache_ok cache) *)
+Theorem search_call_prediction_real n sl0 t ao ts tov tsl ots otov otsl oracles ch ch' k c :
+  tree_ok n sl0 t -> sd_pos (szd n) -> NoDup (zd_keys (szd n)) ->
+  let fd := finder_of_tree n sl0 t ao ts tov tsl in
+  cache_ok fd ch ->
+  search_call fd ots otov otsl oracles ch = Ret (ch', (k, c)) ->
+  cache_ok fd ch' /\
+  exists xs, (forall j, In j k <-> In j xs) /\ NoDup xs /\
+    let sl := sl0 ++ slice_all xs in
+    c_nsl c * multiplicity n sl0 = multiplicity n sl /\
+    cc_total_flops c * multiplicity n sl0 = total_flops n sl t /\
+    match cc_size c with Some s => s | None => 0 end = max_size n sl t /\
+    c_orig c = sum_flops n sl0 t /\
+    call_targets_hold fd ots otov otsl c /\
+    (forall j, In j xs -> ~ In j (removed sl0) /\ In j (zd_keys (szd n)) /\
+       (ao = AoFalse -> ~ In j (output n)) /\ (ao = AoOnly -> In j (output n))).
+Proof.
+  intros Hok Hpos HND fd Hch Hs.
+  destruct (search_call_spec fd ots otov otsl oracles ch ch' k c Hch Hs) as (Hch' & _ & Ht & (xs & Hseq & Hk & Hforb)).
+  split; [exact Hch'|].
+  unfold fd in Hseq, Hforb. cbn [f_cost0 finder_of_tree f_forbidden] in Hseq, Hforb.
+  destruct (costs_remove_eq_tree_remove n sl0 t Hok Hpos HND xs c Hseq) as (T & I & N & O & R & ND & Hkeys).
+  destruct (prediction_is_real n sl0 t xs c (fun j => sd_pos_zget _ j Hpos) I T N) as (P1 & P2 & _ & P4).
+  exists xs. split; [exact Hk|]. split; [exact ND|]. cbn zeta.
+  split; [exact P1|]. split; [exact P2|]. split; [exact P4|]. split; [exact O|]. split; [exact Ht|].
+  intros j Hj. split; [apply (removed_never_again n sl0 t Hok Hpos HND xs c Hseq j Hj)|].
+  split; [apply Hkeys, Hj|].
+  assert (Esd : c_sd (costs_of_tree n sl0 t) = szd n).
+  { apply (cc_init_inv (tree_rows n sl0 t) (szd n) (tree_rows_ok n sl0 t Hok) Hpos HND). }
+  split.
+  - intros -> Ho. apply (Hforb j Hj). apply forbidden_false, Ho.
+  - intros ->. destruct (in_dec Nat.eq_dec j (output n)) as [Hin|Hnin]; [exact Hin|].
+    exfalso. apply (Hforb j Hj). apply forbidden_only; [rewrite Esd; apply Hkeys, Hj|exact Hnin].
+Qed.
